@@ -150,6 +150,89 @@ def rule_ledger_start(ck, rid="C02.R3"):
                    bad=f"a new EV does not start with {attr.split('.')[1]} = 0: the ledger is off from the first period", sink=f"ledger-start:{attr.split('.')[1]}")
 
 
+def rule_gain_identity(ck, rid="C02.R2"):
+    """the charge a battery routine stores and the power / rate it reports describe the same energy, as an *identity* between source
+    expressions (term rewriting, sa/cas.py):  new charge - old charge == reported power x period/60  and  returned rate == reported
+    power x 1000 / voltage.  The post-charge quantity the routine computed (final SoC / granted power) is kept symbolic."""
+    from .. import cas
+    repo = ck.repo
+    S = cas.sp()
+    T, V, C, q0, X = S.symbols("T V C q0 X", positive=True)
+    n_id = 0
+    for q in ("Battery.charge", "Linear2StageBattery._charge", "Linear2StageBattery._charge_stepwise"):
+        f = repo.fn(q)
+        fl = flow_of(f)
+        pilot, voltage, period = f.params[1:4]
+        w = state_writes(fl)
+        ch = [n for n, k, p, t in w if p == "self._current_charge"]
+        pw = [n for n, k, p, t in w if p == "self._current_charging_power" and not (isinstance(n.stmt, ast.Assign) and isinstance(n.stmt.value, ast.Constant))]
+        rets = [n for n in fl.cfg.nodes if n.kind == "return" and n.expr is not None and not isinstance(n.expr, ast.Constant)]
+        if not (ch and pw and rets):
+            continue
+        # locals that have several reaching definitions at the stores (the post-charge quantity computed piecewise) stay symbolic;
+        # everything with a single definition is expanded
+        multi = set()
+        for n in ch + pw + rets:
+            v_ = n.stmt.value if n.kind == "stmt" else n.expr
+            seen_defs = {}
+            for nm, d in fl.used_defs(v_, n):
+                seen_defs.setdefault(nm, set()).add(d)
+            for x in ast.walk(v_):
+                if isinstance(x, ast.Name) and len(fl.defs_at(n, x.id)) > 1:
+                    multi.add(x.id)
+            multi |= {nm for nm, ds in seen_defs.items() if len(ds) > 1}
+        cand = sorted(multi)[0] if multi else "__no_local__"
+        if len(multi) > 1:
+            # keep the one the stored charge is computed from
+            for n in ch:
+                names = [x.id for x in ast.walk(n.stmt.value) if isinstance(x, ast.Name) and x.id in multi]
+                if names:
+                    cand = names[0]
+        env = {cand: X, period: T, voltage: V, "self._capacity": C, "self._current_charge": q0, "self._soc": q0 / C, "self.soc": q0 / C}
+        fl.keep = {cand}
+        # a clamp (min / max of several bounds) is one opaque positive quantity for this identity: the same symbol wherever it occurs
+        opaque = {}
+        for n_ in fl.cfg.nodes:
+            for e_ in fl.cfg.node_exprs(n_):
+                for c_ in [x for x in ast.walk(fl.expand(e_, n_) if not isinstance(e_, ast.stmt) else e_) if isinstance(x, ast.Call) and call_name(x) in
+                           ("min", "max", "minimum", "maximum", "clip")]:
+                    k_ = canon(c_) if isinstance(e_, ast.stmt) else canon(c_)
+                    opaque.setdefault(k_, S.Symbol(f"m{len(opaque)}", positive=True))
+        for n_ in ch + pw + rets:
+            v_ = n_.stmt.value if n_.kind == "stmt" else n_.expr
+            for c_ in [x for x in ast.walk(fl.expand(v_, n_)) if isinstance(x, ast.Call) and call_name(x) in ("min", "max", "minimum", "maximum", "clip")]:
+                opaque.setdefault(canon(c_), S.Symbol(f"m{len(opaque)}", positive=True))
+        env.update(opaque)
+        try:
+            for n in ch:
+                st = n.stmt
+                new = fl.expand(st.value, n)
+                gain = cas.to_sympy(new, env) - q0 if isinstance(st, ast.Assign) else cas.to_sympy(new, env)
+                for pn in pw:
+                    env2 = dict(env)
+                    P_ = cas.to_sympy(fl.expand(pn.stmt.value, pn), env2)
+                    z = cas.is_zero(gain - P_ * T / 60)
+                    n_id += 1
+                    if z is None:
+                        raise AnalysisError(f"{q}: energy identity not decided by the algebra system")
+                    ck.require(z, rid, f, pn.stmt, ok="stored gain == reported power x period/60 (identity)",
+                               bad=f"the charge gained (`{src(st, 50)}`) is not the reported power x period/60 (`{src(pn.stmt, 60)}`): battery charge and delivered energy drift apart",
+                               sink=f"{q}:gain-vs-power")
+                for r in rets:
+                    env3 = dict(env)
+                    env3["self._current_charging_power"] = cas.to_sympy(fl.expand(pw[-1].stmt.value, pw[-1]), env)
+                    R_ = cas.to_sympy(fl.expand(r.expr, r), env3)
+                    z = cas.is_zero(R_ * V / 1000 * T / 60 - gain)
+                    n_id += 1
+                    if z is None:
+                        raise AnalysisError(f"{q}: rate identity not decided by the algebra system")
+                    ck.require(z, rid, f, r.stmt, ok="returned rate x voltage x period == stored gain (identity)",
+                               bad=f"the returned rate `{src(r.expr, 50)}` does not carry the energy that was stored", sink=f"{q}:gain-vs-rate")
+        finally:
+            fl.keep = set()
+    ck.floor(rid, n_id, 6, "energy identities of the battery routines")
+
+
 def rule_single_writers(ck, rid="C02.R3"):
     repo = ck.repo
     n = 0
@@ -334,6 +417,7 @@ def run(ck):
     ck.attempt(rule_record_before_hook)
     ck.attempt(rule_units)
     ck.attempt(rule_same_value)
+    ck.attempt(rule_gain_identity)
     ck.attempt(rule_single_writers)
     ck.attempt(rule_ledger_start)
     ck.attempt(rule_call_chain)
